@@ -79,6 +79,10 @@ def tlc(spec_dir, module, cfg, env=None, workers=1, extra=None, timeout=900, met
     e["JAVA_TOOL_OPTIONS"] = JAVA_OPTS + " -Xmx" + heap
     if env:
         e.update(env)
+    # TLC creates a scratch directory under java.io.tmpdir on every run: keep it out of /tmp
+    jtmp = md + "_jtmp"
+    os.makedirs(jtmp, exist_ok=True)
+    e["JAVA_TOOL_OPTIONS"] = e.get("JAVA_TOOL_OPTIONS", "") + " -Djava.io.tmpdir=" + jtmp
     cmd = ["tlc", "-workers", str(workers), "-metadir", md, "-cleanup", "-noGenerateSpecTE",
            "-config", cfg] + (extra or []) + [module + ".tla"]
     try:
@@ -86,8 +90,10 @@ def tlc(spec_dir, module, cfg, env=None, workers=1, extra=None, timeout=900, met
                            timeout=timeout)
     except subprocess.TimeoutExpired:
         shutil.rmtree(md, ignore_errors=True)
+        shutil.rmtree(jtmp, ignore_errors=True)
         raise ToolError("TLC timeout on %s/%s" % (module, cfg))
     shutil.rmtree(md, ignore_errors=True)
+    shutil.rmtree(jtmp, ignore_errors=True)
     return p.returncode, clean(p.stdout)
 
 
